@@ -24,6 +24,8 @@ func c10InAlpha(n byte, alpha int) bool {
 	switch alpha {
 	case 2:
 		return n < 2
+	case 3:
+		return n < 2 || n == 15
 	case 4:
 		return n < 2 || n >= 14
 	}
@@ -73,9 +75,13 @@ func c10Apply(t *Trie, n, maxLen, alpha int) []c10Op {
 	return ops
 }
 
-// c10Live: operation i determines the final content of its key.
+// c10Live: operation i determines the final content of its key (it is an
+// update and no later operation has the same key).
 func c10Live(ops []c10Op, i int) bool {
-	live := ops[i].val != nil
+	if ops[i].val == nil {
+		return false
+	}
+	live := true
 	for j := i + 1; j < len(ops); j++ {
 		if c10Same(ops[i].key, ops[j].key) {
 			live = false
@@ -84,14 +90,28 @@ func c10Live(ops []c10Op, i int) bool {
 	return live
 }
 
-// c10Ref: reference lookup (last operation on the key wins).
-func c10Ref(ops []c10Op, q []byte) []byte {
-	for i := len(ops) - 1; i >= 0; i-- {
-		if c10Same(ops[i].key, q) {
-			return ops[i].val
+// c10CheckRead asserts that got is what the reference association list (last
+// operation on a key wins, delete removes) holds for key q.  Written without
+// harness-side case splits: hit(i) = "operation i is the last one on q".
+func c10CheckRead(ops []c10Op, q, got []byte, what string) (present bool) {
+	for i := range ops {
+		hit := c10Same(ops[i].key, q)
+		for j := i + 1; j < len(ops); j++ {
+			if c10Same(ops[j].key, q) {
+				hit = false
+			}
 		}
+		if ops[i].val == nil {
+			continue
+		}
+		if hit {
+			present = true
+		}
+		vs.Assert(!hit || c10Same(got, ops[i].val), what+": present key reads its last value")
 	}
-	return nil
+	vs.Assert(present || got == nil, what+": absent or deleted key reads nil")
+	vs.Assert(!present || got != nil, what+": present key does not read nil")
+	return present
 }
 
 // c10Shape asserts the canonical-shape invariants below n and returns the
@@ -222,7 +242,13 @@ func c10Perms(n, max int) [][]int {
 
 // VerifC10_TrieOps: shape, content and history independence after a sequence
 // of operations.
-func VerifC10_TrieOps() {
+func VerifC10_TrieOps() { c10TrieOps() }
+
+// VerifC10_TrieOpsDeep: the same check, registered with more operations on
+// shorter keys (bounds are per suite entry).
+func VerifC10_TrieOpsDeep() { c10TrieOps() }
+
+func c10TrieOps() {
 	n := vs.Param("ops")
 	t := &Trie{}
 	ops := c10Apply(t, n, vs.Param("keylen"), vs.Param("alpha"))
@@ -248,12 +274,7 @@ func VerifC10_TrieOps() {
 	for i := range ops {
 		got, err := t.TryGet(ops[i].key)
 		vs.Assert(err == nil, "in-memory lookup cannot fail")
-		want := c10Ref(ops, ops[i].key)
-		if want == nil {
-			vs.Assert(got == nil, "deleted or absent key reads nil")
-		} else {
-			vs.Assert(c10Same(got, want), "live key reads its last value")
-		}
+		c10CheckRead(ops, ops[i].key, got, "TryGet")
 	}
 	vs.Observe("nlive", nlive)
 
@@ -286,21 +307,20 @@ func VerifC10_TrieLookup() {
 	got, err := t.TryGet(q)
 	vs.Assert(err == nil, "in-memory lookup cannot fail")
 	vs.Assert(t.root == before, "lookup does not replace the root")
-	want := c10Ref(ops, q)
-	if want == nil {
-		vs.Assert(got == nil, "absent key reads nil")
-		vs.Reach("miss")
-	} else {
-		vs.Assert(c10Same(got, want), "present key reads its last value")
+	if c10CheckRead(ops, q, got, "TryGet") {
 		vs.Reach("hit")
+	} else {
+		vs.Reach("miss")
 	}
 	// the proof verifier's walker over the same structure
-	rest, cld := get(t.root, keybytesToHex(q))
-	if want == nil {
-		vs.Assert(cld == nil, "proof walker: absent key ends in nil")
-	} else {
-		v, isVal := cld.(valueNode)
-		vs.Assert(isVal && rest == nil, "proof walker: present key ends in a value node")
-		vs.Assert(c10Same(v, want), "proof walker: same value")
+	_, cld := get(t.root, keybytesToHex(q))
+	var pv []byte
+	switch c := cld.(type) {
+	case nil:
+	case valueNode:
+		pv = c
+	default:
+		vs.Assert(false, "proof walker ends in nil or a value node on an in-memory trie")
 	}
+	c10CheckRead(ops, q, pv, "proof walker")
 }
